@@ -2,6 +2,7 @@
 from harness.core import Corr, Search
 from harness import impl, soups
 from harness.props import c13
+from cxxheaderparser import types as _types
 
 PID = "C14"
 TITLE = "Unparsed values carry exactly the source tokens of their expression"
@@ -364,7 +365,75 @@ def search(ctx, boost=False):
         if len(s.samples) < 3 and len(exp) > 5:
             s.samples.append(dict(position=name, input=tmpl.replace("@", " " + text + " "), expected_tokens=exp))
     search_requires(ctx, s, boost)
+    search_targs(ctx, s, boost)
     return s
+
+
+# template arguments that stay unparsed (a trial parse as a type fails, the tokens become a Value): the tokens of the argument,
+# all of them, none from its neighbours -- including the one special form `sizeof...(pack)` at the end of an argument
+def _targ(t, i):
+    a = t.typename.segments[-1].specialization.args[i].arg
+    return [x.value for x in a.tokens] if isinstance(a, _types.Value) else None
+
+
+TARG_POSITIONS = [
+    ("targ_var_second", "Arr<int, @> v; int after;", lambda d: _targ(d.namespace.variables[0].type, 1)),
+    ("targ_ref_only", "Buf<@>& r = q; int after;", lambda d: _targ(d.namespace.variables[0].type.ref_to, 0)),
+    ("targ_return_middle", "Mat<R, @, 3> mk(); int after;", lambda d: _targ(d.namespace.functions[0].return_type, 1)),
+    ("targ_param", "void f(Arr<@> a); int after;", lambda d: _targ(d.namespace.functions[0].parameters[0].type, 0)),
+    ("targ_field", "struct S { Arr<@, 2> m; int f; }; int after;", lambda d: _targ(d.namespace.classes[0].fields[0].type, 0)),
+    ("targ_base_alias", "using U = Outer<int>::Inner<@>; int after;", lambda d: _targ(d.namespace.using_alias[0].type, 0)),
+]
+TARG_ATOMS = [["N"], ["1"], ["0x10"], ["Base", "::", "size"], ["(", "N", ")"], ["f", "(", "1", ",", "2", ")"], ["sizeof", "(", "int", ")"],
+              ["a", "[", "0", "]"], ["'c'"], ["::", "g"], ["T", "::", "value"], ["alignof", "(", "T", ")"], ["true"], ["K"],
+              ["x", ".", "y"], ["(", "a", ",", "b", ")"], ["M", "{", "1", "}"], ["-", "1"], ["!", "B"]]
+TARG_OPS = ["+", "-", "*", "/", "%", "<<", "|", "&", "^", "==", "!=", "&&", "||"]
+
+
+def gen_targ_value(rng):
+    toks = list(rng.choice(TARG_ATOMS))
+    for _ in range(rng.choice([1, 1, 2, 3])):
+        toks += [rng.choice(TARG_OPS)] + list(rng.choice(TARG_ATOMS))
+    if rng.random() < 0.45:
+        # the pack-size form, last in the argument
+        toks = (toks + [rng.choice(TARG_OPS)] if rng.random() < 0.8 else []) + ["sizeof", "...", "(", rng.choice(["Ts", "Args"]), ")"]
+    return toks
+
+
+def check_targ_position(name, tmpl, toks):
+    pos = [p for p in TARG_POSITIONS if p[0] == name][0]
+    try:
+        d = impl.parse_string(tmpl.replace("@", " ".join(toks)))
+    except impl.CxxParseError as e:
+        return "position %s: a template argument expression is rejected: %s" % (name, str(e)[:160]), False
+    try:
+        got = pos[2](d)
+    except Exception as ex:
+        return "position %s: declaration shape changed (%s: %s)" % (name, type(ex).__name__, ex), False
+    if got is None:
+        return None, False              # read as a type: not an unparsed value
+    exp = []
+    for t in toks:
+        exp += lex_values(t)
+    if got != exp:
+        return "position %s: value tokens %r differ from the argument's tokens %r" % (name, got, exp), True
+    if not after_ok(d):
+        return "position %s: the declaration after the value is lost" % name, True
+    return None, True
+
+
+def search_targs(ctx, s, boost=False):
+    rng = ctx.rng
+    for i in range(ctx.scale(500, 10000) * (3 if boost else 1)):
+        name, tmpl, _ = TARG_POSITIONS[i % len(TARG_POSITIONS)]
+        toks = gen_targ_value(rng)
+        s.evaluations += 1
+        s.count(name)
+        msg, value = check_targ_position(name, tmpl, toks)
+        if value:
+            s.nontrivial.add((name, " ".join(toks)))
+        if msg:
+            s.violations.append(dict(what=msg, case=dict(kind="targ-position", position=name, template=tmpl, tokens=toks)))
 
 
 # requires-clauses in every position that takes one, in front of every ending
@@ -440,6 +509,9 @@ def search_requires(ctx, s, boost=False):
 def replay(ctx, case):
     if case.get("kind") == "requires-position":
         m = check_requires_position(case["position"], case["template"], case["tokens"])
+        return [m] if m else []
+    if case.get("kind") == "targ-position":
+        m = check_targ_position(case["position"], case["template"], case["tokens"])[0]
         return [m] if m else []
     if case.get("kind") == "position":
         m = check_position(case["position"], case["template"], case["text"], case["tokens"], case.get("wrap"))
